@@ -30,6 +30,9 @@ func runC02(p *core.Program, r *core.Report) {
 	c02R4(p, r, pl)
 	c02R5(p, r, pl)
 	c02R6(p, r, pl)
+	// R7: Execute returns the error of a failed generator from inside its loops over iterators (the local packages, the
+	// types of a package): an iterator that goes on after the loop was left panics instead
+	iteratorProtocol(p, r, "R7", 40)
 	c02A5(p, r, pl)
 }
 
@@ -90,7 +93,10 @@ func c02R1(p *core.Program, r *core.Report, pl *pipeline) {
 	if as, ok := g.PointOf(parse[0]).Node().(*ast.AssignStmt); ok && len(as.Lhs) == 2 {
 		perr = core.VarOf(info, as.Lhs[1])
 	}
-	opens := core.CallsTo(info, w.Body, true, "os.OpenFile", "os.Create", "os.WriteFile", "os.CreateTemp")
+	// every effect of the writer that can change or remove what is on disk (the previous output must stay byte-identical
+	// when the rendered source does not parse)
+	opens := core.CallsTo(info, w.Body, true, "os.OpenFile", "os.Create", "os.WriteFile", "os.CreateTemp",
+		"os.Remove", "os.RemoveAll", "os.Rename", "os.Truncate", "os.Chmod", "os.Link", "os.Symlink")
 	if len(opens) == 0 {
 		r.Anchor(rule, "open/create of the destination in the file writer")
 		return
